@@ -518,7 +518,40 @@ func (u *Unit) solveObl(o *Obl, outDir string, timeoutS int, seed int, axioms []
 			best = x
 		}
 	}
+	if best.st == "timeout" && timeoutS < 60 {
+		// nobody gave up, everybody ran out of time: on a loaded machine that says nothing about the obligation.
+		// One more race with a four-fold budget before the obligation is reported as not discharged.
+		r2 := u.solveOblBudget(o, file, timeoutS*4, seed)
+		if r2 != nil {
+			r2.Seconds += total + best.secs
+			return r2
+		}
+	}
 	return &OblResult{Obl: o, Status: best.st, Solver: best.name, Seconds: total + best.secs, Output: best.out, File: file}
+}
+
+// solveOblBudget: one race of all solvers on an already written query with the given budget; nil if undecided.
+func (u *Unit) solveOblBudget(o *Obl, file string, timeoutS, seed int) *OblResult {
+	type r struct {
+		st, out, name string
+		secs          float64
+	}
+	ctx, cancel := context.WithCancel(context.Background())
+	defer cancel()
+	ch := make(chan r, len(solvers))
+	for _, sp := range solvers {
+		go func(sp solverSpec) {
+			s, o2, sec := runSolver(ctx, sp, file, timeoutS, seed)
+			ch <- r{s, o2, sp.name, sec}
+		}(sp)
+	}
+	for range solvers {
+		x := <-ch
+		if x.st == "sat" || x.st == "unsat" {
+			return &OblResult{Obl: o, Status: x.st, Solver: x.name, Seconds: x.secs, Output: x.out, File: file, Model: modelOf(x.st, x.out)}
+		}
+	}
+	return nil
 }
 
 func modelOf(st, out string) string {
